@@ -10,7 +10,7 @@ Definition cc_eqb (a b : cc_cfg) : bool :=
 
 (** C11-F4 for client credentials: id | secret | url | scopes are written without delimiters *)
 Definition p_cc_F4 (a b : cc_cfg) : bool :=
-  cc_enabled a && cc_enabled b && guard_shift (cc_fields a) (cc_fields b).
+  cc_enabled a && cc_enabled b && collide (cc_fields a) (cc_fields b).
 
 Definition g_cc_F4 (h : list cc_cfg) : bool := exists_pair p_cc_F4 h.
 
@@ -49,22 +49,35 @@ Fixpoint timeline (kc : option string) (s : signer) (h : list jstep) : list (sig
 Definition p_jf_F4 (fx5 : bool) (H : string -> string) (x y : signer * jf_cfg * jreq) : bool :=
   let '(s1, c1, q1) := x in
   let '(s2, c2, q2) := y in
-  guard_shift (jf_fields fx5 H s1 c1 q1) (jf_fields fx5 H s2 c2 q2) ||
-  guard_shift (signer_fields fx5 s1 c1) (signer_fields fx5 s2 c2).
+  collide (jf_fields fx5 H s1 c1 q1) (jf_fields fx5 H s2 c2 q2) ||
+  collide (signer_fields fx5 s1 c1) (signer_fields fx5 s2 c2).
 
 Definition g_jf_F4 (fx5 : bool) (H : string -> string) (kc : option string) (s : signer) (h : list jstep) : bool :=
   exists_pair (p_jf_F4 fx5 H) (timeline kc s h).
 
-(** C11-F8: the RFC 7234 cache ignores `Vary`: a stored response is reused for a
-    request whose Vary-selected headers differ from those of the request it was fetched for *)
-Definition g_F8 (fx8 : bool) (c : hc_cfg) (h : list hc_req) : bool :=
-  hc_stores fx8 c &&
-  exists_pair (fun a b => negb (String.eqb (hc_vary_part c a) (hc_vary_part c b))) h.
+Definition hc_same_key (a b : hc_cfg * hc_req) : bool := flds_eqb (hc_fields (fst a)) (hc_fields (fst b)).
 
-(** C11-F9: the RFC 7234 cache answers POST requests from the cache, whatever their body *)
-Definition g_F9 (fx8 : bool) (c : hc_cfg) (h : list hc_req) : bool :=
-  hc_stores fx8 c && hc_is_post c &&
-  exists_pair (fun a b => negb (String.eqb (hq_body a) (hq_body b))) h.
+(** C11-F8 (code before 12fdf68): the RFC 7234 cache ignores `Vary`: a stored response is reused for a
+    request to the same url, method and Authorization whose Vary-selected headers differ *)
+Definition p_F8 (fx8 : bool) (w : hc_world) (a b : hc_cfg * hc_req) : bool :=
+  hc_stores fx8 w (fst a) && hc_same_key a b &&
+  negb (String.eqb (hc_vary_part w (fst a) (snd a)) (hc_vary_part w (fst b) (snd b))).
+
+Definition g_F8 (fx8 : bool) (w : hc_world) (h : list (hc_cfg * hc_req)) : bool := exists_pair (p_F8 fx8 w) h.
+
+(** C11-F9 (code before 12fdf68): POST requests are answered from the cache, whatever their body *)
+Definition p_F9 (fx8 : bool) (w : hc_world) (a b : hc_cfg * hc_req) : bool :=
+  hc_stores fx8 w (fst a) && hc_is_post (fst a) && hc_same_key a b &&
+  negb (String.eqb (hq_body (snd a)) (hq_body (snd b))).
+
+Definition g_F9 (fx8 : bool) (w : hc_world) (h : list (hc_cfg * hc_req)) : bool := exists_pair (p_F9 fx8 w) h.
+
+(** C11-F4 for the RFC 7234 cache: "RFC 7234" | url | method | Authorization *)
+Definition g_hc_F4 (h : list (hc_cfg * hc_req)) : bool :=
+  exists_pair (fun a b => collide (hc_fields (fst a)) (hc_fields (fst b))) h.
+
+Definition hc_cfg_eqb (a b : hc_cfg) : bool :=
+  String.eqb (hc_url a) (hc_url b) && String.eqb (hc_method a) (hc_method b) && String.eqb (hc_auth a) (hc_auth b).
 
 Definition hc_req_eqb (a b : hc_req) : bool :=
   alist_eqb (hq_headers a) (hq_headers b) && String.eqb (hq_body a) (hq_body b).
@@ -72,8 +85,8 @@ Definition hc_req_eqb (a b : hc_req) : bool :=
 (** C11-F4 for the jwt authenticator's key cache: endpoint hash | rendered url | key id *)
 Definition p_jk_F4 (H : string -> string) (a b : jk_cfg * jtok) : bool :=
   jk_enabled (fst a) && jk_enabled (fst b) &&
-  (guard_shift (jk_fields H (fst a) (snd a)) (jk_fields H (fst b) (snd b)) ||
-   guard_shift (jk_ep_fields (fst a)) (jk_ep_fields (fst b))).
+  (collide (jk_fields H (fst a) (snd a)) (jk_fields H (fst b) (snd b)) ||
+   collide (jk_ep_fields (fst a)) (jk_ep_fields (fst b))).
 
 Definition g_jk_F4 (H : string -> string) (h : list (jk_cfg * jtok)) : bool := exists_pair (p_jk_F4 H) h.
 
